@@ -67,7 +67,17 @@ impl<P, T> Index<usize> for Table<P, T> {
     type Output = Node<P, T>;
 
     fn index(&self, index: usize) -> &Self::Output {
-        &self.as_ref()[index]
+        // Do not go through `&[Node]`: a shared reference to the whole slice overlaps with the mutable
+        // references to other nodes that `get_mut` hands out (mutable views, iterators and set
+        // operations, possibly on another thread). Offset the pointer manually, as in `get_mut`.
+        let nodes = self.as_ref();
+        let len = nodes.len();
+        if index >= len {
+            panic!("index out of bounds: the len is {len} but the index is {index}");
+        }
+        // Safety: `index` is in bounds, and (see the safety contract of `get_mut`) nobody holds a
+        // mutable reference to this particular node.
+        unsafe { &*nodes.as_ptr().add(index) }
     }
 }
 
